@@ -6,8 +6,12 @@
   source it runs on is, from the first draw to the last, a cursor over the SAME genes
   (`C07_gene_source_never_leaves_genotype`): mapping never modifies or swaps the genotype.
 
-  Dynamic SGE: the genotype may be extended on demand from the shared stream, and only extended
-  (`C07_dsge_extension_monotone`).
+  Dynamic SGE (as repaired: metahandler draws read the genotype too): the genotype may be
+  extended on demand from the shared stream, and only extended (`C07_dsge_extension_monotone`);
+  after that extension the mapping is a fixed point: the extended genotype maps to the same
+  program, is not extended again, and the shared stream is not touched
+  (`C07_dsge_remap_fixed`, `C07_dsge_remap_fixed_err`), for every grammar (refined fields
+  included), depth limit, genotype and pair of shared streams.
 -/
 import GEVerif.Model.Linear
 import GEVerif.Lemmas.SynM
@@ -66,5 +70,87 @@ theorem C07_dsge_extension_monotone (g : Grammar) (maxDepth fuel : Nat) (dna : D
   · exact List.prefix_refl _
   · exact createNode_dnaGrows g _ fuel _ _ _
       { src := .scripted shared, dna := dna, pos := [], metaFromGenes := true } k
+
+/-- Dynamic SGE, the fixed point: once a mapping has returned a program `v` (having extended the
+genotype to `s1.dna`), mapping the EXTENDED genotype again — with any shared stream `shared'`
+in any state — returns the same program, leaves the genotype exactly as it is, and does not
+draw from (or advance) the shared stream. -/
+theorem C07_dsge_remap_fixed (g : Grammar) (maxDepth fuel : Nat) (dna : DSGEDna)
+    (shared shared' : Script) (v : Val) (s1 : SynSt)
+    (h : mapDSGE g maxDepth fuel dna shared = .ok v s1) :
+    ∃ s2, mapDSGE g maxDepth fuel s1.dna shared' = .ok v s2 ∧ s2.dna = s1.dna ∧
+      s2.src = .scripted shared' := by
+  unfold mapDSGE at h ⊢
+  dsimp only at h ⊢
+  split at h
+  · cases h
+  · rename_i hv
+    rw [if_neg hv]
+    obtain ⟨_, _, h3⟩ := createNode_replay g { kind := .dsge, maxDepth := maxDepth } rfl fuel
+      (.cls g.spec.start) ⟨0, 0⟩ []
+      { src := .scripted shared, dna := dna, pos := [], metaFromGenes := true } rfl
+    rw [h] at h3
+    obtain ⟨h1, _, h4, h5, _⟩ := h3
+      { src := .scripted shared', dna := s1.dna, pos := [], metaFromGenes := true } rfl rfl
+      (KeyPrefix.refl _)
+    generalize createNode g { kind := .dsge, maxDepth := maxDepth } fuel (.cls g.spec.start) ⟨0, 0⟩ []
+      { src := .scripted shared', dna := s1.dna, pos := [], metaFromGenes := true } = r at h1 h4 h5
+    cases r with
+    | err e s2 => exact h1.elim
+    | ok v' s2 =>
+      have hv' : v = v' := h1
+      subst hv'
+      exact ⟨s2, rfl, h4, h5⟩
+
+/-- The same for a mapping that raised: the extended genotype raises the same exception again,
+unchanged and without touching the shared stream. -/
+theorem C07_dsge_remap_fixed_err (g : Grammar) (maxDepth fuel : Nat) (dna : DSGEDna)
+    (shared shared' : Script) (e : Err) (s1 : SynSt)
+    (h : mapDSGE g maxDepth fuel dna shared = .err e s1) :
+    ∃ s2, mapDSGE g maxDepth fuel s1.dna shared' = .err e s2 ∧ s2.dna = s1.dna ∧
+      s2.src = .scripted shared' := by
+  unfold mapDSGE at h ⊢
+  dsimp only at h ⊢
+  split at h
+  · rename_i hv
+    rw [if_pos hv]
+    cases h
+    exact ⟨_, rfl, rfl, rfl⟩
+  · rename_i hv
+    rw [if_neg hv]
+    obtain ⟨_, _, h3⟩ := createNode_replay g { kind := .dsge, maxDepth := maxDepth } rfl fuel
+      (.cls g.spec.start) ⟨0, 0⟩ []
+      { src := .scripted shared, dna := dna, pos := [], metaFromGenes := true } rfl
+    rw [h] at h3
+    obtain ⟨h1, _, h4, h5, _⟩ := h3
+      { src := .scripted shared', dna := s1.dna, pos := [], metaFromGenes := true } rfl rfl
+      (KeyPrefix.refl _)
+    generalize createNode g { kind := .dsge, maxDepth := maxDepth } fuel (.cls g.spec.start) ⟨0, 0⟩ []
+      { src := .scripted shared', dna := s1.dna, pos := [], metaFromGenes := true } = r at h1 h4 h5
+    cases r with
+    | ok v' s2 => exact h1.elim
+    | err e' s2 =>
+      have he : e = e' := h1
+      subst he
+      exact ⟨s2, rfl, h4, h5⟩
+
+/-! ### Non-vacuity -/
+
+/-- GE: a mapping that really reads genes; the source at the end is the genotype, cursor moved -/
+example : mapGE (analyse witnessSpec) witnessDec 20 [5, 1, 4, 6, 8] true =
+    .ok witnessP1 { src := .gene { dna := [5, 1, 4, 6, 8], index := 3 } } := by rfl
+
+/-- dynamic SGE: the empty genotype is extended with 5 genes drawn from the shared stream … -/
+example : (match mapDSGE (analyse witnessSpec) 3 20 [] { draws := [1, 1, 0, 0, 0] } with
+    | .ok v s => v == witnessP2 && s.dna == [(.cls 0, [1, 1, 0, 0, 0])] &&
+        (match s.src with | .scripted sh => sh.pos == 5 | _ => false)
+    | _ => false) = true := by decide +kernel
+
+/-- … and the extended genotype maps to the same program, unchanged, with another shared stream
+left at position 0 -/
+example : (match mapDSGE (analyse witnessSpec) 3 20 [(.cls 0, [1, 1, 0, 0, 0])] { draws := [7, 7, 7] } with
+    | .ok v s => v == witnessP2 && s.dna == [(.cls 0, [1, 1, 0, 0, 0])] &&
+        (match s.src with | .scripted sh => sh.pos == 0 | _ => false)
+    | _ => false) = true := by decide +kernel
 
 end GEVerif.C07
